@@ -515,13 +515,22 @@ func C15(c *vk.Ctx) {
 		}
 	}
 	if c.Thorough() {
+		// covering tours from the initial states, up to a budget of walks (a complete tour of the 4 k-state graph from each of the
+		// 16 phase pairs is about 2 000 walks of 120 steps on two real validators: more than an hour)
+		budget := 500
+	tours:
 		for _, in := range inits {
 			g.Init = in
 			for _, w := range g.Tour(120, rng) {
+				if budget == 0 || c.Violations() > 6 {
+					break tours
+				}
 				runRefresherWalk(c, w, c.Seed+int64(walks))
 				walks++
+				budget--
 			}
 		}
+		c.Set("thorough_tour_walks_budget", int64(500))
 	}
 	if !refreshMutexLost.Load() {
 		walks += c15ProvisionIntake(c)
